@@ -364,6 +364,14 @@ def check(ctx):
                             fr_ = r_[1].frame if isinstance(r_[1], FrameEnv) and getattr(r_[1], 'frame', None) is not None else n.frame
                             mentions_head = any(isinstance(x, ast.Name) and an_.ev(x, before, fr_) == 'head' for x in ast.walk(r_[0]))
                     val_ok = isinstance(v, ast.Dict) and mentions_head
+                    if not val_ok and isinstance(a.value, ast.Call) and isinstance(a.value.func, ast.Attribute) and an_.ev(a.value.func.value, before, n.frame) == 'head':
+                        # the record is built by a method of the event itself (`event._get_trace_entry(now)`): the one definition of that name returns
+                        # a dict display built from self
+                        from ..cfg import _unique_methods
+                        from ..norm import simple_return
+                        um = _unique_methods(P).get(a.value.func.attr)
+                        ret_ = simple_return(um[1]) if um else None
+                        val_ok = isinstance(ret_, ast.Dict) and any(isinstance(x, ast.Name) and x.id == 'self' for x in ast.walk(ret_))
                     fl = 'stored' if key_ok and val_ok else 'stored-wrong'
                     if 'advanced' in st.flags:
                         fl = 'stored-after-advance'
